@@ -70,10 +70,14 @@ def run_vrp(case):
                 pass
             del events[:]            # the earlier call is not part of this trace
         if case["mode"] == "solve":
+            wk = {}
+            if case.get("weights"):          # non-default weights of the documented sum (small integers)
+                dw, vw, tw, cp, sp = case["weights"]
+                wk = {"distance_weight": float(dw), "vehicle_weight": float(vw), "tw_penalty": float(tw), "capacity_penalty": float(cp), "sync_penalty": float(sp)}
             stop_at = case.get("stop_at")
             pk = {"on_progress": (lambda p: p.iteration >= stop_at), "progress_interval": 1} if stop_at else {}
             r = vrp.solve_vrptw(customers, case["vehicles"], depot=(float(dx), 0.0), vehicle_capacity=float(case["capacity"]), max_iter=case.get("max_iter", 60),
-                                max_no_improve=case.get("max_iter", 60), seed=case["seed"], **pk)
+                                max_no_improve=case.get("max_iter", 60), seed=case["seed"], **pk, **wk)
             st = _proj_state(r.solution)
             o = float(r.objective)
             events.append({"e": "result", "status": r.status.name, "state": st, "obj": int(round(o)), "exact": abs(o - round(o)) < 1e-6 and st["exact"]})
@@ -89,7 +93,8 @@ def run_vrp(case):
     finally:
         for name in OPS:
             setattr(vrp, name, orig[name])
-    return {"kind": "vrp", "jobs": [], "cust": custs, "dist": dist, "cap": [case["capacity"]] * case["vehicles"], "events": events, "input": case}
+    return {"kind": "vrp", "jobs": [], "cust": custs, "dist": dist, "cap": [case["capacity"]] * case["vehicles"], "events": events, "input": case,
+            "w": list(case.get("weights") or [1, 0, 1000, 1000, 10000])}
 
 
 # ------------------------------------------------------------------ generators
@@ -128,13 +133,26 @@ def gen_vrp_tight(rng, mode="solve"):
     return case
 
 
+def _with_weights(case, rng):
+    """non-default weights of the documented sum, pairwise different, and windows some customers cannot meet (their lateness makes the
+    time-window weight visible in the objective of the returned state)"""
+    case["weights"] = [rng.choice([1, 2]), rng.choice([0, 0, 5, 50]), rng.choice([10, 50, 700]), rng.choice([7, 300, 2000]), rng.choice([100, 10000])]
+    dx = case.get("depot_x", 0)
+    for c in case["customers"]:
+        if rng.random() < 0.7:
+            # reachable in time when served first, but any customer inserted ahead of it (insertion checks only the inserted one) makes it late
+            c[2], c[3], c[4] = 0, abs(c[0] - dx) + rng.randint(0, 3), rng.randint(2, 5)
+    return case
+
+
 def gen_vrp_stop(rng):
     """7-9 serviceable customers, three vehicles with room to spare: the annealing walk of the adaptive search keeps leaving the best
     state it has seen, and the progress callback asks to stop somewhere along the way"""
     n = rng.randint(7, 9)
     customers = [[rng.randint(-20, 20), rng.randint(1, 4), 0, None if rng.random() < 0.6 else rng.randint(30, 80), rng.randint(0, 2), 1] for _ in range(n)]
-    return {"customers": customers, "vehicles": 3, "capacity": rng.choice([12, 15, 100]), "seed": rng.randint(0, 10 ** 6), "mode": "solve",
+    case = {"customers": customers, "vehicles": 3, "capacity": rng.choice([12, 15, 100]), "seed": rng.randint(0, 10 ** 6), "mode": "solve",
             "max_iter": 80, "stop_at": rng.randint(3, 60), "depot_x": rng.choice([0, 0, rng.randint(-10, 10)])}
+    return _with_weights(case, rng) if rng.random() < 0.4 else case
 
 
 def gen_vrp(rng, mode="solve"):
@@ -155,6 +173,8 @@ def gen_vrp(rng, mode="solve"):
     case = {"customers": customers, "vehicles": rng.choice([1, 2, 2, 3, 3, 4]), "capacity": rng.choice([5, 8, 100]), "seed": rng.randint(0, 10 ** 6), "mode": mode}
     if mode == "solve" and rng.random() < 0.5:
         case["stop_at"] = rng.choice([2, 4, 6, 9, 15, 25])        # the progress callback asks to stop
+    if mode == "solve" and rng.random() < 0.35:
+        _with_weights(case, rng)
     if rng.random() < 0.4:
         case["depot_x"] = rng.randint(-15, 15)
         if rng.random() < 0.6:
